@@ -82,6 +82,8 @@ class NotComparable(Exception):
 
 
 def _ev(e: ast.AST, env: dict[str, int]):
+    if not isinstance(e, (ast.Constant, ast.Name)) and src(e) in env:
+        return env[src(e)]  # a symbolic operand given by its source text
     if isinstance(e, ast.Constant) and isinstance(e.value, (int, bool)):
         return e.value
     if isinstance(e, ast.Name):
@@ -255,3 +257,47 @@ def eval_bool(e: ast.AST, val: dict[str, bool]) -> bool | None:
     if k not in val:
         return None
     return val[k] if pos else not val[k]
+
+
+def returns_under(cfg: CFG, valuation: dict[str, bool]) -> list[ast.AST]:
+    """The expressions a function can return under ``valuation`` (CFG tests and conditional
+    expressions in the returned value are both decided by it; undecided ones keep both sides)."""
+    from sa.cfg import eval_test, reachable, single_defs, specialize
+
+    defs = single_defs(cfg)
+
+    def pick(e: ast.AST) -> list[ast.AST]:
+        if isinstance(e, ast.IfExp):
+            t = eval_test(e.test, valuation, defs)
+            if t is True:
+                return pick(e.body)
+            if t is False:
+                return pick(e.orelse)
+            return pick(e.body) + pick(e.orelse)
+        return [e]
+
+    out: list[ast.AST] = []
+    for n in reachable(cfg.entry, specialize(valuation, cfg)):
+        if n.kind == "stmt" and isinstance(n.ast, ast.Return) and n.ast.value is not None:
+            out += pick(n.ast.value)
+    return out
+
+
+def policy_valuation(f: FuncInfo, vals: list, chosen, valid_const: str = "_VALID_ON_MISSING") -> dict[str, bool]:
+    """Valuation of the tests of ``f`` on a policy variable (whatever its name): every name compared with one
+    of the declared values ``vals`` or tested for membership in ``valid_const`` is taken to hold ``chosen``
+    (``None``: a value outside the declared ones)."""
+    names: set[str] = set()
+    for n in walk_local(f.node):
+        if isinstance(n, ast.Compare) and len(n.ops) == 1 and isinstance(n.left, ast.Name):
+            c = n.comparators[0]
+            if isinstance(c, ast.Constant) and c.value in vals or isinstance(c, ast.Name) and c.id == valid_const:
+                names.add(n.left.id)
+    val: dict[str, bool] = {}
+    for x in names:
+        for v in vals:
+            val[f"{x} == {v!r}"] = v == chosen
+            val[f"{x} != {v!r}"] = v != chosen
+        val[f"{x} not in {valid_const}"] = chosen is None
+        val[f"{x} in {valid_const}"] = chosen is not None
+    return val
